@@ -459,6 +459,91 @@ pub fn gen_guards(files: &BTreeMap<String, syn::File>, out: &mut String) {
         o.def("try_from_vec_guard", "guard", first_guard_among(al, "GenericArray", Some("TryFrom"), "try_from"), "impl_alloc.rs :: TryFrom<Vec<T>> (and, through it, TryFrom<Box<[T]>>)");
         o.def("try_from_boxed_slice_guard", "guard", first_guard(al, "GenericArray", None, "try_from_boxed_slice"), "impl_alloc.rs :: try_from_boxed_slice");
     }
+    if let Some(sd) = files.get("impl_serde.rs") {
+        // visit_seq: the up-front hint arm, the fullness test, the surplus-probe guard
+        let vs = one(find_fns(sd, "GAVisitor", Some("Visitor"), "visit_seq"), "visit_seq");
+        match vs {
+            Ok(b) => {
+                let mut hint: R<String> = Err("no `match seq.size_hint()` with a guarded Some(n) arm".into());
+                for s in &b.stmts {
+                    if let Stmt::Expr(Expr::Match(m), _) = s {
+                        for arm in &m.arms {
+                            if let (Pat::TupleStruct(ts), Some((_, g))) = (&arm.pat, &arm.guard) {
+                                if ts.path.is_ident("Some") && ts.elems.len() == 1 {
+                                    if let Pat::Ident(v) = &ts.elems[0] {
+                                        hint = gcond(g).map(|c| c.replace(&format!("(GVar \"{}\")", v.ident), "(GVar \"hint\")"));
+                                    }
+                                }
+                            }
+                        }
+                    }
+                }
+                o.def("serde_hint_guard", "gcond", hint, "impl_serde.rs :: visit_seq :: the up-front size-hint arm that returns invalid_length (hint = the announced count)");
+                // inside the unsafe block: `if *position == N::USIZE { if seq.size_hint() != Some(K) && .. }`
+                struct V {
+                    full: Vec<String>,
+                    probe: Vec<String>,
+                }
+                impl<'ast> syn::visit::Visit<'ast> for V {
+                    fn visit_expr_if(&mut self, i: &'ast syn::ExprIf) {
+                        if let Ok(c) = gcond(&i.cond) {
+                            if c.contains("position") {
+                                self.full.push(c);
+                            }
+                        }
+                        // seq.size_hint() != Some(0) && seq.next_element::<Dummy>()?.is_some()
+                        if let Expr::Binary(b) = strip(&i.cond) {
+                            if matches!(b.op, BinOp::And(_)) {
+                                if let Expr::Binary(l) = strip(&b.left) {
+                                    let op = match l.op {
+                                        BinOp::Ne(_) => Some("!="),
+                                        BinOp::Eq(_) => Some("=="),
+                                        _ => None,
+                                    };
+                                    let is_hint = matches!(strip(&l.left), Expr::MethodCall(m) if m.method == "size_hint");
+                                    let lit = match strip(&l.right) {
+                                        Expr::Call(c) if matches!(strip(&c.func), Expr::Path(p) if p.path.is_ident("Some")) && c.args.len() == 1 => match strip(&c.args[0]) {
+                                            Expr::Lit(x) => match &x.lit {
+                                                syn::Lit::Int(n) => Some(n.base10_digits().to_string()),
+                                                _ => None,
+                                            },
+                                            _ => None,
+                                        },
+                                        _ => None,
+                                    };
+                                    let probes = matches!(strip(&b.right), Expr::MethodCall(m) if m.method == "is_some");
+                                    if let (Some(op), true, Some(k), true) = (op, is_hint, lit, probes) {
+                                        self.probe.push(format!("(\"{}\", {})", op, k));
+                                    }
+                                }
+                            }
+                        }
+                        syn::visit::visit_expr_if(self, i);
+                    }
+                }
+                let mut v = V { full: vec![], probe: vec![] };
+                syn::visit::Visit::visit_block(&mut v, b);
+                o.def("serde_full_test", "gcond", if v.full.len() == 1 { Ok(v.full[0].clone()) } else { Err(format!("expected one test on *position, found {}", v.full.len())) }, "impl_serde.rs :: visit_seq :: all N slots written?");
+                o.def("serde_probe_guard", "string * Z", if v.probe.len() == 1 { Ok(v.probe[0].clone()) } else { Err(format!("expected one `size_hint() <op> Some(k) && ..is_some()` probe, found {}", v.probe.len())) }, "impl_serde.rs :: visit_seq :: the surplus probe runs when size_hint() <op> Some(k)");
+            }
+            Err(e) => println!("ERROR GenGuards.v serde_hint_guard: {}", e),
+        }
+        // the tuple length announced on both sides
+        struct T(Vec<String>);
+        impl<'ast> syn::visit::Visit<'ast> for T {
+            fn visit_expr_method_call(&mut self, m: &'ast syn::ExprMethodCall) {
+                if (m.method == "serialize_tuple" || m.method == "deserialize_tuple") && !m.args.is_empty() {
+                    if let Ok(g) = gexpr(&m.args[0]) {
+                        self.0.push(format!("(\"{}\", {})", m.method, g));
+                    }
+                }
+                syn::visit::visit_expr_method_call(self, m);
+            }
+        }
+        let mut t = T(vec![]);
+        syn::visit::Visit::visit_file(&mut t, sd);
+        o.def("serde_tuple_lens", "list (string * gexpr)", Ok(format!("[{}]", t.0.join("; "))), "impl_serde.rs :: the length passed to serialize_tuple / deserialize_tuple");
+    }
     if let Some(hex) = files.get("hex.rs") {
         let r = hex
             .items
